@@ -33,7 +33,9 @@ def make_alias(r, d):
     choices = ["space"]
     int_kw = [k for k, v in d["kw"].items() if isinstance(v, int) and not isinstance(v, bool)]
     if int_kw:
-        choices += ["kw"] * 4
+        choices += ["kw"] * 4 + ["neighbour"] * 2
+    if any(isinstance(v, float) for v in d["kw"].values()):
+        choices += ["neighbour"] * 2
     if len(d["kw"]) > 1:
         choices.append("kworder")
     nd = [j for j, t in enumerate(d["tensors"]) if "shape" in t]
@@ -50,6 +52,15 @@ def make_alias(r, d):
         if v in (0, 1):
             alts += [bool(v), bool(v)]
         d["kw"][k] = r.choice(alts)
+    elif c == "neighbour":
+        # not an equal value but a related one that a too coarse cache key would conflate (hash(-1) == hash(-2), 0.0 == -0.0)
+        ks = sorted(k for k, v in d["kw"].items() if isinstance(v, int | float) and not isinstance(v, bool))
+        k = r.choice(ks)
+        v = d["kw"][k]
+        if isinstance(v, float):
+            d["kw"][k] = -v if v == 0 else (-2.0 if v == -1.0 else (-1.0 if v == -2.0 else v + 1.0))
+        else:
+            d["kw"][k] = -2 if v == -1 else (-1 if v == -2 else v + 1)
     elif c == "kworder":
         items = list(d["kw"].items())
         r.shuffle(items)
@@ -88,14 +99,14 @@ def gen_pool(master, size):
                 if "->" in d["desc"] and "[" not in d["desc"]:
                     continue
                 if name == "red_sum_scale" and r.random() < 0.7:
-                    d["kw"]["scale"] = r.choice([1, 2, 3])
+                    d["kw"]["scale"] = r.choice([1, 2, 3, -1, -2, 0.0, -0.0, -1.0])
             else:
                 d = workload.gen_call(r, "elem")
                 d["op"] = "adapt:" + name
                 d["tensors"] = d["tensors"][:2]
                 d["desc"] = ", ".join(d["desc"].split(" -> ")[0].split(", ")[:2]) + ((" -> " + d["desc"].split(" -> ")[1]) if " -> " in d["desc"] else "")
                 if name == "el_axpy" and r.random() < 0.7:
-                    d["kw"]["alpha"] = r.choice([1, 2, 3])
+                    d["kw"]["alpha"] = r.choice([1, 2, 3, -1, -2, 0.0, -0.0, -2.0])
         else:
             d = workload.gen_call(r)
         if r.random() < 0.25:
